@@ -1,7 +1,6 @@
 // Package qsync stands in for package sync in store/file_queue.go and store/bitcask.go
 // (instrumenter pass import=sync=verifmc/vfs/qsync). Outside a gating vfs session both types are the
-// plain primitives. While one is active (the harness makes sure that the store under test is then
-// the only live store of the process),
+// plain primitives. While one is active, for the locks of the store that was opened inside it,
 //
 //   - every lock tells the gate which party holds it (the foreground or the store's background
 //     goroutines), so that "the background waits for a lock the foreground holds" and "the foreground
@@ -17,6 +16,7 @@ import (
 	"runtime"
 	"strings"
 	"sync"
+	"sync/atomic"
 
 	"verifmc/vfs"
 )
@@ -30,23 +30,46 @@ type (
 	Locker    = sync.Locker
 )
 
-func session() *vfs.Session {
-	s := vfs.Active()
-	if s == nil || !s.Gating() {
+// binding ties a lock to the session in which it was first used: the store under test is opened
+// inside its session, so its locks belong to it; locks of instances that were created outside any
+// session, or that are left over from an earlier session (an abandoned instance whose goroutines
+// are still running), never talk to the gate.
+type binding struct {
+	bound atomic.Pointer[vfs.Session]
+	gen   int64 // the session's pending-count generation when the lock was first used
+}
+
+var noSession = new(vfs.Session)
+
+func (b *binding) session() *vfs.Session {
+	own := b.bound.Load()
+	if own == nil {
+		s := vfs.Active()
+		if s == nil {
+			s = noSession
+		}
+		if s != noSession {
+			atomic.StoreInt64(&b.gen, s.PendingGen())
+		}
+		b.bound.CompareAndSwap(nil, s)
+		own = b.bound.Load()
+	}
+	if own == noSession || !own.Gating() || vfs.Active() != own {
 		return nil
 	}
-	return s
+	return own
 }
 
 // Mutex is sync.Mutex whose holder the gate can see.
 type Mutex struct {
+	binding
 	mu  sync.Mutex
 	st  vfs.LockState
 	via *vfs.Session // session through which the current holder came (written under mu)
 }
 
 func (m *Mutex) Lock() {
-	s := session()
+	s := m.session()
 	if s != nil {
 		s.Acquire(&m.st, true, true)
 	}
@@ -66,16 +89,17 @@ func (m *Mutex) Unlock() {
 // RWMutex is sync.RWMutex whose holders the gate can see, and which counts deliveries into and
 // completions out of the write-ahead queue's pending index.
 type RWMutex struct {
+	binding
 	rw  sync.RWMutex
 	st  vfs.LockState
 	via *vfs.Session // for the write lock (written under rw)
 }
 
 func (m *RWMutex) Lock() {
-	s := session()
+	s := m.session()
 	if s != nil {
 		if callerIs("setIndex") {
-			s.Delivered()
+			s.Delivered(atomic.LoadInt64(&m.gen))
 		}
 		s.Acquire(&m.st, true, false)
 	}
@@ -90,13 +114,13 @@ func (m *RWMutex) Unlock() {
 	if s != nil {
 		s.Release(&m.st, true)
 		if callerIs("delIndex") {
-			s.Completed()
+			s.Completed(atomic.LoadInt64(&m.gen))
 		}
 	}
 }
 
 func (m *RWMutex) RLock() {
-	if s := session(); s != nil {
+	if s := m.session(); s != nil {
 		s.Acquire(&m.st, false, false)
 	}
 	m.rw.RLock()
@@ -105,7 +129,7 @@ func (m *RWMutex) RLock() {
 func (m *RWMutex) RUnlock() {
 	m.rw.RUnlock()
 	// a read hold taken before the session began is released as a no-op (Release never goes below 0)
-	if s := session(); s != nil {
+	if s := m.session(); s != nil {
 		s.Release(&m.st, false)
 	}
 }
